@@ -193,4 +193,13 @@ example : run 128 ⟨1, 0, 0⟩ [.long 5, .short 4, .cancel, .short (-1)] = some
 example : run 128 ⟨0, 5, 9⟩ [.cancel] = some ⟨0, 0, 4⟩ := by decide
 example : cancelDefault 128 ⟨255, 2 ^ 128 - 1, 0⟩ = some ⟨255, 1, 0⟩ := by decide
 
+-- added by the hygiene audit
+-- `pure_history_sum` / `pure_history_fails_iff`: a cancel-free history on a pure pool, succeeding and failing
+example : run 128 ⟨1, 10, 0⟩ [.long 5, .short (-4), .short 1] = some ⟨1, 12, 0⟩ ∧ run 128 ⟨1, 10, 0⟩ [.long 5, .short (-16)] = none := by decide
+-- `impure_history_diff`: a successful history on an impure pool
+example : run 128 ⟨0, 5, 9⟩ [.long 3, .cancel, .short 2] = some ⟨0, 0, 3⟩ := by decide
+-- `sdk_cancel_impure_partial`: its hypotheses (both sides fit, the smaller one below 2^127)
+example : cancelDefault 128 ⟨0, 2 ^ 127 + 5, 7⟩ = some (cancel ⟨0, 2 ^ 127 + 5, 7⟩) :=
+  sdk_cancel_impure_partial 128 ⟨0, 2 ^ 127 + 5, 7⟩ rfl (by decide) (by decide) (Or.inr (by decide))
+
 end Gmx.C15
